@@ -3,12 +3,18 @@ package checks
 // C13 — published diagnostics converge to the latest content under any timing.
 // Oracle: the diagnostics a fresh server publishes for the final text.
 // Schedules: every order in which the per-change background computations run
-// (held at the diag.start hook) or reach the client (PublishDiagnostics calls
-// parked in the client stub and released in the chosen order).
+// (mode start: held at the diag.start hook until all notifications are in),
+// every order in which computed results are published while later notifications
+// arrive in between (mode computed: each analysis runs up to the diag.publish
+// hook before the next notification is sent, then they are released in the
+// chosen order), and every order in which PublishDiagnostics calls reach the
+// client (mode publish: parked in the client stub).
 
 import (
 	"encoding/json"
 	"fmt"
+	"os"
+	"path/filepath"
 	"sort"
 	"strings"
 	"sync"
@@ -27,22 +33,37 @@ import (
 type C13Step struct {
 	Doc    int  `json:"doc"`
 	Ranged bool `json:"ranged"`
-	Val    int  `json:"val"`  // marker value making the version's diagnostics unique
-	Kind   int  `json:"kind"` // shape of the text of this version
+	Val    int  `json:"val"`           // marker value making the version's diagnostics unique
+	Kind   int  `json:"kind"`          // shape of the text of this version
 	Rev    int  `json:"rev,omitempty"` // >0: a trailing comment making the text unique while Kind/Val (hence the diagnostics) repeat an earlier version
 }
 
 type C13Case struct {
-	Steps []C13Step `json:"steps"` // step 0 of each doc is its didOpen
-	Perm  []int     `json:"perm"`  // order in which computations may start / publish
-	Mode  string    `json:"mode"`  // start | publish
+	Steps []C13Step `json:"steps"`         // step 0 of each doc is its didOpen
+	Perm  []int     `json:"perm"`          // order in which computations may start / publish
+	Mode  string    `json:"mode"`          // start | publish
 	Pre   bool      `json:"pre,omitempty"` // the documents are open, clean and settled before the burst (every step is a change)
 }
 
-var c13URIs = []string{"file:///c13/a.journal", "file:///c13/b.journal"}
+var c13URIs []string
+
+// c13Setup puts the two documents beside a real file they may include.
+func c13Setup() {
+	if c13URIs != nil {
+		return
+	}
+	dir := filepath.Join(scratch(), "c13")
+	_ = os.MkdirAll(dir, 0o755)
+	_ = os.WriteFile(filepath.Join(dir, "inc.journal"), []byte("account a:b\n\n2023-12-31 included\n    a:b  1 EUR\n    c:d\n"), 0o644)
+	c13URIs = []string{"file://" + filepath.Join(dir, "a.journal"), "file://" + filepath.Join(dir, "b.journal")}
+}
 
 func c13Text(kind, val int) string {
-	switch kind % 4 {
+	switch kind % 6 {
+	case 4:
+		return "" // everything deleted
+	case 5:
+		return fmt.Sprintf("include inc.journal\n\n2024-01-01 version\n    a:b  %d EUR\n    c:d  0 EUR\n", val)
 	case 0:
 		return fmt.Sprintf("2024-01-01 version\n    a:b  %d EUR\n    c:d  0 EUR\n", val)
 	case 1:
@@ -56,6 +77,7 @@ func c13Text(kind, val int) string {
 
 type startGate struct {
 	mu      sync.Mutex
+	point   string // hook at which analyses are held: diag.start, or diag.publish (result computed, not yet published)
 	active  bool
 	waiting []*startWaiter
 	done    int
@@ -69,8 +91,16 @@ type startWaiter struct {
 var sgate = &startGate{}
 
 func (g *startGate) handler(name string, args ...string) {
+	if name == "diag.publish" {
+		name = "diag.hold-computed"
+	}
+	g.mu.Lock()
+	if g.active && ((name == "diag.start" && g.point != "diag.publish") || (name == "diag.hold-computed" && g.point == "diag.publish")) {
+		name = "hold"
+	}
+	g.mu.Unlock()
 	switch name {
-	case "diag.start":
+	case "hold":
 		g.mu.Lock()
 		if !g.active {
 			g.mu.Unlock()
@@ -151,6 +181,7 @@ func waitUntil(cond func() bool, d time.Duration, short ...any) bool {
 }
 
 func c13Check(c *C13Case) (ds []ev.Discrepancy, nontrivial bool) {
+	c13Setup()
 	verifhook.SetHandler(sgate.handler)
 	defer verifhook.SetHandler(nil)
 	h, err := lspx.New(lspx.Options{})
@@ -163,7 +194,7 @@ func c13Check(c *C13Case) (ds []ev.Discrepancy, nontrivial bool) {
 	final := map[int]int{}
 	for i, st := range c.Steps {
 		texts[i] = c13Text(st.Kind, st.Val)
-		if st.Rev > 0 {
+		if st.Rev > 0 && texts[i] != "" {
 			texts[i] += fmt.Sprintf("; rev %d\n", st.Rev)
 		}
 		final[st.Doc] = i
@@ -198,7 +229,11 @@ func c13Check(c *C13Case) (ds []ev.Discrepancy, nontrivial bool) {
 		}
 	}
 	sgate.mu.Lock()
-	sgate.active = c.Mode == "start"
+	sgate.active = c.Mode == "start" || c.Mode == "computed"
+	sgate.point = "diag.start"
+	if c.Mode == "computed" {
+		sgate.point = "diag.publish"
+	}
 	sgate.done = 0
 	sgate.mu.Unlock()
 	if c.Mode == "publish" {
@@ -218,10 +253,14 @@ func c13Check(c *C13Case) (ds []ev.Discrepancy, nontrivial bool) {
 			_ = h.Change(uri, i+2, []refclient.Change{{Text: texts[i]}})
 		}
 		cur[st.Doc] = texts[i]
+		if c.Mode == "computed" {
+			// the next notification arrives when this one's result is ready to be published
+			waitUntil(func() bool { return sgate.nWaiting() >= i+1 }, 5*time.Second)
+		}
 	}
 	n := len(c.Steps)
 	var realised []int
-	if c.Mode == "start" {
+	if c.Mode == "start" || c.Mode == "computed" {
 		waitUntil(func() bool { return sgate.nWaiting() >= n }, 5*time.Second)
 		for _, k := range c.Perm {
 			st := c.Steps[k]
@@ -363,7 +402,7 @@ func genC13Steps(t *rapid.T, n int) []C13Step {
 		if two && i > 0 {
 			d = rapid.IntRange(0, 1).Draw(t, "doc")
 		}
-		st := C13Step{Doc: d, Ranged: rapid.Bool().Draw(t, "ranged"), Val: i + 1 + rapid.IntRange(0, 3).Draw(t, "val")*10, Kind: rapid.IntRange(0, 3).Draw(t, "kind")}
+		st := C13Step{Doc: d, Ranged: rapid.Bool().Draw(t, "ranged"), Val: i + 1 + rapid.IntRange(0, 3).Draw(t, "val")*10, Kind: rapid.SampledFrom([]int{0, 1, 2, 3, 0, 1, 2, 3, 4, 5, 5}).Draw(t, "kind")}
 		if rapid.IntRange(0, 2).Draw(t, "repeat") == 0 {
 			// another text with the diagnostics of the previous version of the same document
 			for j := i - 1; j >= 0; j-- {
@@ -395,7 +434,7 @@ func TestC13Enum(t *testing.T) {
 		steps := genC13Steps(t, n)
 		pre := rapid.Bool().Draw(t, "pre")
 		for _, perm := range permutations(n) {
-			for _, mode := range []string{"start", "publish"} {
+			for _, mode := range []string{"start", "publish", "computed"} {
 				c := &C13Case{Steps: steps, Perm: perm, Mode: mode, Pre: pre}
 				report(t, recC13, "c13", c, c13Run(c))
 			}
@@ -410,7 +449,7 @@ func TestC13Rand(t *testing.T) {
 		n := rapid.IntRange(2, 5).Draw(t, "n")
 		steps := genC13Steps(t, n)
 		perm := rapid.Permutation(seq(n)).Draw(t, "perm")
-		c := &C13Case{Steps: steps, Perm: perm, Mode: rapid.SampledFrom([]string{"start", "publish"}).Draw(t, "mode"), Pre: rapid.Bool().Draw(t, "pre")}
+		c := &C13Case{Steps: steps, Perm: perm, Mode: rapid.SampledFrom([]string{"start", "publish", "computed"}).Draw(t, "mode"), Pre: rapid.Bool().Draw(t, "pre")}
 		report(t, recC13, "c13", c, c13Run(c))
 	})
 }
